@@ -81,7 +81,8 @@ def column_spec(draw, name, kinds=('i2', 'i4', 'i8', 'f4', 'f8', 'S', 'S', 'E'))
     if kind == 'E':
         # an enumerated column may be an array of labels too (round 9)
         col['alen'] = draw(st.sampled_from([0, 0, 0, 2, 3]))
-        col['etype'] = draw(ident)
+        # (the writer spells the type name in upper case; LONG, FLOAT, ... are not the C keywords long, float, ...)
+        col['etype'] = draw(st.one_of(ident, ident, ident, st.sampled_from(['long', 'Int', 'SHORT', 'float', 'Double'])))
         col['labels'] = draw(st.lists(st.from_regex(r'[A-Z][A-Z0-9_]{0,6}', fullmatch=True), min_size=1, max_size=4, unique=True))
         col['width'] = max(len(x) for x in col['labels']) + draw(st.integers(0, 2))
     return col
